@@ -1256,10 +1256,29 @@ impl TxDef {
     }
 }
 
+/// Parameter, environment, party and input names are lower-cased when they become
+/// IR parameter or query names: two of them that differ only by case (or not at all)
+/// would silently share one argument or one set of UTxOs.
+fn report_duplicate_names<'a>(names: impl Iterator<Item = &'a str>) -> AnalyzeReport {
+    let mut seen = std::collections::HashSet::new();
+
+    names
+        .filter(|name| !seen.insert(name.to_lowercase()))
+        .map(|name| Error::DuplicateDefinition(name.to_string()))
+        .collect()
+}
+
 impl Analyzable for TxDef {
     fn analyze(&mut self, parent: Option<Rc<Scope>>) -> AnalyzeReport {
         // analyze static types before anything else
         let params = self.parameters.analyze(parent.clone());
+
+        let duplicates = report_duplicate_names(
+            self.parameters
+                .parameters
+                .iter()
+                .map(|x| x.name.value.as_str()),
+        ) + report_duplicate_names(self.inputs.iter().map(|x| x.name.as_str()));
 
         // create the new scope and populate its symbols
 
@@ -1292,6 +1311,7 @@ impl Analyzable for TxDef {
         self.scope = Some(final_scope);
 
         params
+            + duplicates
             + locals
             + inputs
             + outputs
@@ -1411,7 +1431,15 @@ impl Analyzable for Program {
 
         let txs = self.txs.analyze(self.scope.clone());
 
-        parties + policies + types + aliases + txs + assets
+        let duplicates = report_duplicate_names(self.parties.iter().map(|x| x.name.value.as_str()))
+            + report_duplicate_names(
+                self.env
+                    .iter()
+                    .flat_map(|env| env.fields.iter())
+                    .map(|x| x.name.as_str()),
+            );
+
+        parties + policies + types + aliases + txs + assets + duplicates
     }
 
     fn is_resolved(&self) -> bool {
